@@ -55,7 +55,10 @@ Definition check_driver (c : dcase) : N :=
     (* ... and once the request named a document, the report names it (the engine frees the
        per-document slot by it), whatever failed afterwards *)
     && (negb (c_bob c) || match c_frames c, c_result c with
-                          | _, SErrAbort _ => true            (* declined: no slot is held *)
+                          (* declined: no slot is held for this request, so the report must not name the
+                             document -- the engine frees the slot of whatever report names it, and that
+                             slot belongs to the session that made this request be declined (C11) *)
+                          | _, SErrAbort _ => match c_namespace c with None => true | Some _ => false end
                           | FMsg true _ n _ :: _, _ => option_eqb N.eqb (c_namespace c) (Some n)
                           | _, _ => true
                           end)
